@@ -92,6 +92,28 @@ def check(ctx):
         ctx.shape_is("R-1D", f"fit: pxy_ shape [{tag}]", ctx.attr(st, o, "pxy_"), ("M",) if oned else ("M", "P"), site, tag)
         nc = ctx.attr(st, o, "n_components_")
         ctx.ob("NF-API", f"fit: n_components_ is the requested number [{tag}]", nc is not None and nc.dim is not None and repr(nc.dim) == "K", f"{nc!r}", site, tag, nontrivial=False)
+        # the contract between fit and the space-specific fits: targets, fitted targets and regression weights arrive
+        # as matrices (a vector target as one column) - the two callees and the kernel / covariance helpers build
+        # Y Y^T and W Yhat^T from them, which are an inner product for vectors
+        for space in ("feature", "sample"):
+            got = []
+
+            def route2(interp, clo, args, kw, st_, node, got=got):
+                got.append(list(args))
+                return route(interp, clo, args, kw, st_, node)
+
+            I = ctx.interp(order=[("K", "<=", "N"), ("K", "<=", "M")], assume=protocols.assume_default, stubs={"PCovR._fit_feature_space": route2, "PCovR._fit_sample_space": route2})
+            st = State()
+            o = ctx.construct(I, st, cls, n_components=integer("K"), mixing=scalar("alpha", 0, 1), svd_solver="full", space=space)
+            ctx.call_method(I, st, o, "fit", arr("X", "N", "M"), arr("Y", "N") if oned else arr("Y", "N", "P"))
+            tag2 = f"{tag}, space={space}"
+            a_ = got[0] if got else []
+            a_ = [x for x in a_ if getattr(x, "kind", None) == "arr"]
+            want = [("N", "M"), ("N", 1 if oned else "P"), ("N", 1 if oned else "P")] + ([("M", 1 if oned else "P")] if space == "sample" else [])
+            if ctx.ob("R-1D", f"fit: the space-specific fit is reached with (X, Y, Yhat{', W' if space == 'sample' else ''}) [{tag2}]", len(a_) == len(want), f"{len(got)} call(s), {len(a_)} array argument(s)", site, tag2):
+                for nm_, v_, w_ in zip(("X", "Y", "Yhat", "W"), a_, want):
+                    if space == "sample" and nm_ in ("Yhat", "W"):  # (the covariance helper of the feature route reshapes a vector itself)
+                        ctx.shape_is("R-1D", f"fit: {nm_} reaches the space-specific fit as a matrix [{tag2}]", v_, w_, site, tag2)
     # 1-D target with the default number of components (n_components=None -> min(n, m), arpack: one less):
     # the flattening must use the fitted count, the hyper-parameter is None
     for solver in ("full", "arpack"):
